@@ -35,6 +35,81 @@ use repe_verif_harness::*;
 use std::sync::{Arc, Mutex};
 
 // ------------------------------------------------------------------------------------------
+// (n) which public entry points of the anchored files this family drives
+// ------------------------------------------------------------------------------------------
+/// Entry points (by name) of message.rs / io.rs / server.rs / client.rs / async_client.rs / websocket_client.rs that
+/// reach the bulk numeric paths and are driven by some op of this family.
+const DRIVEN: &[&str] = &[
+    "body_typed_slice", "body_complex_slice", "body_aligned_typed_slice", "body_beve", "body_bytes", "body_utf8", "body_json",
+    "decode_typed_slice", "decode_complex_slice", "beve_body", "into_wire_bytes",
+    "write_message_streaming", "write_message_typed_slice", "write_message_complex_slice",
+    "with_typed_slice", "with_typed_slice_ref",
+    "call_typed_slice", "call_typed_slice_with_timeout", "call_typed_slice_aligned", "call_typed_slice_aligned_with_timeout",
+    "call_typed_beve", "call_typed_beve_with_timeout",
+    // frame parsers the frames are handed to (`Message::from_slice*`, `MessageView::from_slice`), `TypedResponse::beve`
+    "from_slice", "from_slice_exact", "beve",
+];
+/// Matching names that are deliberately not driven, and why.
+const NOT_DRIVEN_BECAUSE: &[(&str, &str)] = &[
+    ("notify_typed_beve", "serde notify: no result to observe; the property speaks of results of calls"),
+    ("body_format", "plain field setter (C01)"),
+    ("body_format_code", "plain field setter, used by the harness as a stand-in (C01)"),
+    ("write_message_streaming_async", "async twin of the generic streaming core, no bulk writer goes through it (C01)"),
+];
+
+/// `pub fn` / `pub async fn` names of the anchored files of the tree under test whose name says they touch a bulk /
+/// BEVE / body path.  Anything that is neither driven nor explained is reported (`not_driven` in stats.json, stderr).
+fn entry_point_audit(out: &mut Out) -> Vec<String> {
+    let repo = std::env::var("VERIF_REPO").unwrap_or_else(|_| "/repo".into());
+    let mut missing = Vec::new();
+    let mut seen = 0u64;
+    for file in ["message.rs", "io.rs", "async_io.rs", "server.rs", "client.rs", "async_client.rs", "websocket_client.rs"] {
+        let text = std::fs::read_to_string(std::path::Path::new(&repo).join("src").join(file)).unwrap_or_default();
+        // message.rs has code after its test module: drop test modules by brace matching
+        let mut code = String::new();
+        let mut rest = text.as_str();
+        while let Some(i) = rest.find("#[cfg(test)]") {
+            code.push_str(&rest[..i]);
+            let tail = &rest[i..];
+            match tail.find('{') {
+                Some(b) => {
+                    let mut depth = 0i32;
+                    let mut end = tail.len();
+                    for (k, ch) in tail[b..].char_indices() {
+                        if ch == '{' { depth += 1 } else if ch == '}' { depth -= 1; if depth == 0 { end = b + k + 1; break; } }
+                    }
+                    rest = &tail[end..];
+                }
+                None => { rest = ""; }
+            }
+        }
+        code.push_str(rest);
+        for line in code.lines() {
+            let t = line.trim_start();
+            for pre in ["pub async fn ", "pub fn "] {
+                if let Some(r) = t.strip_prefix(pre) {
+                    let name: String = r.chars().take_while(|c| c.is_alphanumeric() || *c == '_').collect();
+                    let relevant = ["slice", "complex", "aligned", "beve", "streaming", "into_wire_bytes", "body_"].iter().any(|k| name.contains(k));
+                    if !relevant { continue; }
+                    seen += 1;
+                    if !DRIVEN.contains(&name.as_str()) && !NOT_DRIVEN_BECAUSE.iter().any(|(n, _)| *n == name) {
+                        let item = format!("{}::{}", file, name);
+                        if !missing.contains(&item) { missing.push(item); }
+                    }
+                }
+            }
+        }
+    }
+    out.add("entry_points.relevant_seen", seen);
+    for m in &missing {
+        out.count(&format!("NOT_DRIVEN.{}", m));
+    }
+    out.extra.insert("not_driven".into(), serde_json::json!(missing));
+    out.extra.insert("not_driven_because".into(), serde_json::json!(NOT_DRIVEN_BECAUSE.iter().map(|(n, w)| format!("{}: {}", n, w)).collect::<Vec<_>>()));
+    missing
+}
+
+// ------------------------------------------------------------------------------------------
 // element types as raw bytes
 // ------------------------------------------------------------------------------------------
 trait Elem:
@@ -310,7 +385,7 @@ struct Ctx<'a> {
     out: &'a mut Out,
     line: &'a str,
     idx: &'a str,
-    net: Option<&'a Net>,
+    net: Option<&'static Net>,
 }
 impl Ctx<'_> {
     fn fail(&mut self, sig: &str, detail: String) {
@@ -859,11 +934,11 @@ fn op_stream<T: Elem>(c: &mut Ctx, complex: bool, id: u64, notify: bool, ec: u32
     {
         // user callbacks that fail: a body writer returning Err, a sink failing after some bytes — the
         // writers must return the error (no panic) and what reached the sink is a prefix of the frame
-        struct FailAfter { out: Vec<u8>, left: usize }
+        struct FailAfter { out: Vec<u8>, left: usize, kind: std::io::ErrorKind }
         impl std::io::Write for FailAfter {
             fn write(&mut self, buf: &[u8]) -> std::io::Result<usize> {
                 if self.left == 0 {
-                    return Err(std::io::Error::new(std::io::ErrorKind::BrokenPipe, "sink closed"));
+                    return Err(std::io::Error::new(self.kind, "sink failed"));
                 }
                 let n = buf.len().min(self.left);
                 self.out.extend_from_slice(&buf[..n]);
@@ -872,15 +947,21 @@ fn op_stream<T: Elem>(c: &mut Ctx, complex: bool, id: u64, notify: bool, ec: u32
             }
             fn flush(&mut self) -> std::io::Result<()> { Ok(()) }
         }
-        for left in [0usize, 1, 47, 48, 48 + q.len(), 49 + q.len(), buffered.len().saturating_sub(1)] {
+        use std::io::ErrorKind as K;
+        // every error kind a sink can report (Interrupted apart: `write_all` retries it, see the sink below)
+        let kinds = [K::NotFound, K::PermissionDenied, K::ConnectionRefused, K::ConnectionReset, K::ConnectionAborted, K::NotConnected, K::AddrInUse,
+                     K::AddrNotAvailable, K::BrokenPipe, K::AlreadyExists, K::WouldBlock, K::InvalidInput, K::InvalidData, K::TimedOut, K::WriteZero,
+                     K::UnexpectedEof, K::Unsupported, K::OutOfMemory, K::Other];
+        for (ki, left) in [0usize, 1, 47, 48, 48 + q.len(), 49 + q.len(), buffered.len().saturating_sub(1), 7, 50, 60, 48 + q.len() / 2, 3, 2, 46, 51, 52, 53, 54, 55].into_iter().enumerate() {
             if left >= buffered.len() {
                 continue;
             }
-            let mut sink = FailAfter { out: Vec::new(), left };
+            let mut sink = FailAfter { out: Vec::new(), left, kind: kinds[(ki + n) % kinds.len()] };
             let r = catch(|| if complex { repe::write_message_complex_slice(&mut sink, h, q, &cvec_of::<T>(payload)) } else { repe::write_message_typed_slice(&mut sink, h, q, &vec_of::<T>(payload)) });
             // (whether the writer reports the error is not the property's business; a panic or other bytes are)
-            if r.is_err() || !buffered.starts_with(&sink.out) {
-                c.fail(&format!("numeric.{}.failing_sink", k), format!("sink failing after {} bytes: result {}, bytes in the sink are a prefix of the frame: {}", left, match &r { Ok(Ok(())) => "Ok", Ok(Err(_)) => "Err", Err(_) => "PANIC" }, buffered.starts_with(&sink.out)));
+            // a writer that says Ok has emitted the frame: with a sink that failed before the end that cannot be
+            if r.is_err() || !buffered.starts_with(&sink.out) || matches!(r, Ok(Ok(()))) {
+                c.fail(&format!("numeric.{}.failing_sink", k), format!("sink failing with {:?} after {} bytes: result {}, bytes in the sink are a prefix of the frame: {}", sink.kind, left, match &r { Ok(Ok(())) => "Ok", Ok(Err(_)) => "Err", Err(_) => "PANIC" }, buffered.starts_with(&sink.out)));
             }
         }
         let mut sink = Vec::new();
@@ -1065,6 +1146,8 @@ struct Net {
 /// comes back as the response body (an aligned request is answered with an empty array of its type).
 /// What the capture peer answers next instead of the echo (set by `capr`).
 static NEXT_RESPONSE: Mutex<Option<(u16, Vec<u8>)>> = Mutex::new(None);
+/// Error code the capture peer puts on its next answer (set by `capre`).
+static NEXT_EC: std::sync::atomic::AtomicU32 = std::sync::atomic::AtomicU32::new(0);
 
 fn start_capture() -> (String, std::sync::mpsc::Receiver<Vec<u8>>) {
     use std::io::{Read, Write};
@@ -1101,7 +1184,9 @@ fn start_capture() -> (String, std::sync::mpsc::Receiver<Vec<u8>>) {
                         None if body.first() == Some(&0x5C) && body.len() > 1 => (1, vec![body[1], 0]),
                         None => (1, body.to_vec()),
                     };
-                    let resp = RawFrame::request(id, false, 1, &rest[..q], resp_fmt, &resp_body).to_vec();
+                    let mut resp = RawFrame::request(id, false, 1, &rest[..q], resp_fmt, &resp_body);
+                    resp.h.ec = NEXT_EC.swap(0, std::sync::atomic::Ordering::Relaxed);
+                    let resp = resp.to_vec();
                     // a request for "/!noanswer" is recorded and never answered
                     let notify = hdr[11] != 0 || rest[..q].starts_with(b"/!noanswer");
                     if tx.send(frame).is_err() {
@@ -1109,7 +1194,15 @@ fn start_capture() -> (String, std::sync::mpsc::Receiver<Vec<u8>>) {
                     }
                     if !notify {
                         let qb = &rest[..q];
-                        let ok = if qb.starts_with(b"/!frag") {
+                        let ok = if qb.starts_with(b"/!stall") {
+                            // the answer stalls mid-frame for the number of milliseconds in the path
+                            let ms: u64 = std::str::from_utf8(&qb[7..]).ok().and_then(|x| x.parse().ok()).unwrap_or(300);
+                            let cut = (48 + resp.len()) / 2;
+                            let cut = cut.min(resp.len());
+                            let a = stream.write_all(&resp[..cut]).is_ok() && stream.flush().is_ok();
+                            std::thread::sleep(std::time::Duration::from_millis(ms));
+                            a && stream.write_all(&resp[cut..]).is_ok()
+                        } else if qb.starts_with(b"/!frag") {
                             // the answer arrives in pieces (byte by byte for "/!frag1"), with a stall in the middle
                             let step = if qb.starts_with(b"/!frag1") { 1 } else { (resp.len() / 3).max(1) };
                             let mut good = true;
@@ -1135,6 +1228,9 @@ fn start_capture() -> (String, std::sync::mpsc::Receiver<Vec<u8>>) {
 }
 
 fn net_path(route: &str, cls: u8, code: u8, plen: usize) -> String {
+    if route == "missing" {
+        return format!("/missing{}", "m".repeat(plen.saturating_sub(8)));
+    }
     if plen == 1 {
         // the one-byte path "/" is registered for f64 on the borrowing route only
         return "/".to_string();
@@ -1163,6 +1259,31 @@ fn make_router() -> Router {
     r
 }
 
+/// Calls into the code under test that did not come back within the watchdog bound.
+static EXPIRIES: std::sync::atomic::AtomicUsize = std::sync::atomic::AtomicUsize::new(0);
+/// Timeout handed to the `_with_timeout` entry points, and the watchdog for the entry points without one.
+const CALL_BOUND: std::time::Duration = std::time::Duration::from_secs(15);
+const WATCHDOG: std::time::Duration = std::time::Duration::from_secs(20);
+
+/// Run a blocking call of the code under test on its own thread; `None` if it does not return within the
+/// watchdog (the thread is abandoned).
+fn guarded_call<R: Send + 'static>(f: impl FnOnce() -> R + Send + 'static) -> Option<R> {
+    let (tx, rx) = std::sync::mpsc::channel();
+    std::thread::spawn(move || {
+        let _ = tx.send(f());
+    });
+    match rx.recv_timeout(WATCHDOG) {
+        Ok(r) => Some(r),
+        Err(_) => {
+            EXPIRIES.fetch_add(1, std::sync::atomic::Ordering::Relaxed);
+            None
+        }
+    }
+}
+fn never_returned() -> repe::RepeError {
+    repe::RepeError::Io(std::io::Error::new(std::io::ErrorKind::Other, "WATCHDOG: the call never returned"))
+}
+
 static SEED: std::sync::atomic::AtomicU64 = std::sync::atomic::AtomicU64::new(1);
 
 /// Index of a TCP server token (0 blocking, 1 async, 3 blocking with read/write timeouts and nodelay) in the tables.
@@ -1177,8 +1298,9 @@ fn start_net() -> Net {
     let l3 = std::net::TcpListener::bind("127.0.0.1:0").unwrap();
     let a3 = l3.local_addr().unwrap().to_string();
     let srv3 = repe::Server::new(make_router())
-        .read_timeout(Some(std::time::Duration::from_secs(25)))
-        .write_timeout(Some(std::time::Duration::from_secs(25)))
+        // (set, but far longer than any run: an idle client connection must not be closed under the harness)
+        .read_timeout(Some(std::time::Duration::from_secs(3600)))
+        .write_timeout(Some(std::time::Duration::from_secs(3600)))
         .tcp_nodelay(true);
     std::thread::spawn(move || {
         let _ = srv3.serve(l3);
@@ -1221,8 +1343,13 @@ fn op_net<T: Elem>(c: &mut Ctx, server: usize, client: &str, kind: &str, route: 
     let net = c.net.expect("net started");
     let xs: Vec<T> = vec_of(payload);
     let path = net_path(route, cls, code, plen);
-    let t = std::time::Duration::from_secs(30);
-    let r: Result<Vec<T>, repe::RepeError> = match (client, kind) {
+    let t = CALL_BOUND;
+    let r: Result<Vec<T>, repe::RepeError> = {
+        let (client, kind, path, xs) = (client.to_string(), kind.to_string(), path.to_string(), xs.clone());
+        // every call into the clients runs under the harness watchdog
+        guarded_call(move || {
+            let (client, kind, path, xs) = (client.as_str(), kind.as_str(), path.as_str(), &xs);
+            let r: Result<Vec<T>, repe::RepeError> = match (client, kind) {
         ("sync", "bulk") => net.sync_client[srv_ix(server)].call_typed_slice_with_timeout(&path, &xs, t),
         ("sync", "aligned") => net.sync_client[srv_ix(server)].call_typed_slice_aligned_with_timeout(&path, &xs, t),
         ("sync", "serde") => net.sync_client[srv_ix(server)].call_typed_beve_with_timeout(&path, &xs, t),
@@ -1232,9 +1359,13 @@ fn op_net<T: Elem>(c: &mut Ctx, server: usize, client: &str, kind: &str, route: 
         // server index 2: the WebSocket server, reached by the WebSocket client's serde helper
         ("ws", "serde") => net.rt.block_on(net.ws_client.call_typed_beve_with_timeout(&path, &xs, t)),
         _ => panic!("unknown client kind"),
+            };
+            r
+        })
+        .unwrap_or_else(|| Err(never_returned()))
     };
     let _ = &net.addr;
-    let expect_served = !(kind == "aligned" && route != "ref");
+    let expect_served = !(kind == "aligned" && route != "ref") && route != "missing";
     let s = match &r {
         Ok(v) => {
             let p = bytes_of(v);
@@ -1245,6 +1376,10 @@ fn op_net<T: Elem>(c: &mut Ctx, server: usize, client: &str, kind: &str, route: 
                 c.fail(&format!("numeric.net.{}.{}.aligned_accepted_by_regular_route", kind, route), "an aligned body was served by a route that does not understand it".into());
             }
             format!("ok {}", show_elems(v.len(), &p))
+        }
+        Err(e) if e.to_string().contains("WATCHDOG") => {
+            c.fail(&format!("numeric.net.{}.{}.call_never_returned", kind, route), format!("the {} client's call did not return within {} s", client, WATCHDOG.as_secs()));
+            "err never-returned".to_string()
         }
         Err(e) => {
             let cl = cls_of(e);
@@ -1417,6 +1552,10 @@ fn op_hseq<T: Elem>(c: &mut Ctx, kind: &str, wrap: bool, cls: u8, code: u8, q: &
         };
         match mode.as_str() {
             "err" => Err((repe::ErrorCode::ApplicationErrorBase, "refused by the handler".to_string())),
+            m if m.starts_with("err") => {
+                let code: u32 = m[3..].parse().expect("errN");
+                Err((repe::ErrorCode::try_from(code).expect("known error code"), String::new()))
+            }
             "panics" => panic!("{}", String::from("handler panic (String)")),
             "panicstr" => panic!("handler panic (&str)"),
             "panicint" => std::panic::panic_any(7u32),
@@ -1519,6 +1658,8 @@ fn op_hseq<T: Elem>(c: &mut Ctx, kind: &str, wrap: bool, cls: u8, code: u8, q: &
                         (Some(wb), Ok(Ok(resp))) if resp.header.ec == 0 && resp.header.body_format == 1 && resp.body == *wb && resp.header.id == i as u64 + 1 && resp.query.is_empty() => {}
                         (Some(_), _) => c.fail(&format!("{}.response_differs", tag), format!("step {} ({}): the response is not the typed array of the handler's result", i, hk)),
                         (None, Ok(Ok(resp))) if hk == "err" && resp.header.ec == 4096 => {}
+                        // any other error code a closure can return: the property only needs the route to stay usable
+                        (None, Ok(_)) if hk.starts_with("err") && hk.len() > 3 => {}
                         (None, Err(_)) if hk.starts_with("panic") => {} // the property is silent about a panicking handler
                         (None, _) => c.fail(&format!("{}.handler_error_lost", tag), format!("step {} ({}): the handler's error did not come back", i, hk)),
                     }
@@ -1587,22 +1728,32 @@ fn op_abld<T: Elem>(c: &mut Ctx, cls: u8, code: u8, mis: usize, wire: u8, q: &[u
 /// type: the client must hand back exactly those elements, or an error — never a reinterpretation.
 fn op_capr<T: Elem>(c: &mut Ctx, client: &str, kind: &str, same: bool, resp_fmt: u16, resp: Vec<u8>, n2: usize, p2: &[u8]) -> (String, bool) {
     let same = same && resp_fmt == 1;
+    let path = "/r";
     let net = c.net.expect("net started");
     let xs: Vec<T> = vec_of(&vec![0x11u8; 2 * T::W]);
-    let t = std::time::Duration::from_secs(30);
+    let t = CALL_BOUND;
     let rx = net.captured.lock().unwrap();
     while rx.try_recv().is_ok() {}
     *NEXT_RESPONSE.lock().unwrap() = Some((resp_fmt, resp));
-    let r: Result<Vec<T>, repe::RepeError> = match (client, kind) {
-        ("sync", "bulk") => net.cap_sync.call_typed_slice_with_timeout("/r", &xs, t),
-        ("sync", "aligned") => net.cap_sync.call_typed_slice_aligned_with_timeout("/r", &xs, t),
-        ("async", "bulk") => net.rt.block_on(net.cap_async.call_typed_slice_with_timeout("/r", &xs, t)),
-        ("async", "aligned") => net.rt.block_on(net.cap_async.call_typed_slice_aligned_with_timeout("/r", &xs, t)),
-        ("syncp", "bulk") => net.cap_sync.call_typed_slice("/r", &xs),
-        ("syncp", "aligned") => net.cap_sync.call_typed_slice_aligned("/r", &xs),
-        ("asyncp", "bulk") => net.rt.block_on(net.cap_async.call_typed_slice("/r", &xs)),
-        ("asyncp", "aligned") => net.rt.block_on(net.cap_async.call_typed_slice_aligned("/r", &xs)),
+    let r: Result<Vec<T>, repe::RepeError> = {
+        let (client, kind, path, xs) = (client.to_string(), kind.to_string(), path.to_string(), xs.clone());
+        // every call into the clients runs under the harness watchdog
+        guarded_call(move || {
+            let (client, kind, path, xs) = (client.as_str(), kind.as_str(), path.as_str(), &xs);
+            let r: Result<Vec<T>, repe::RepeError> = match (client, kind) {
+        ("sync", "bulk") => net.cap_sync.call_typed_slice_with_timeout(path, xs, t),
+        ("sync", "aligned") => net.cap_sync.call_typed_slice_aligned_with_timeout(path, xs, t),
+        ("async", "bulk") => net.rt.block_on(net.cap_async.call_typed_slice_with_timeout(path, xs, t)),
+        ("async", "aligned") => net.rt.block_on(net.cap_async.call_typed_slice_aligned_with_timeout(path, xs, t)),
+        ("syncp", "bulk") => net.cap_sync.call_typed_slice(path, xs),
+        ("syncp", "aligned") => net.cap_sync.call_typed_slice_aligned(path, xs),
+        ("asyncp", "bulk") => net.rt.block_on(net.cap_async.call_typed_slice(path, xs)),
+        ("asyncp", "aligned") => net.rt.block_on(net.cap_async.call_typed_slice_aligned(path, xs)),
         _ => panic!("unknown client kind"),
+            };
+            r
+        })
+        .unwrap_or_else(|| Err(never_returned()))
     };
     let _ = rx.recv_timeout(std::time::Duration::from_secs(20));
     drop(rx);
@@ -1617,6 +1768,10 @@ fn op_capr<T: Elem>(c: &mut Ctx, client: &str, kind: &str, same: bool, resp_fmt:
             }
             format!("ok {}", show_elems(v.len(), &p))
         }
+        Err(e) if e.to_string().contains("WATCHDOG") => {
+            c.fail(&format!("numeric.capr.{}.{}.call_never_returned", client, kind), format!("the peer answered ({} elements) but the call did not return within {} s", n2, WATCHDOG.as_secs()));
+            "err never-returned".to_string()
+        }
         Err(e) => {
             if same {
                 c.fail(&format!("numeric.capr.{}.{}.response_rejected", client, kind), format!("a well-formed response of the element type was rejected: {}", cls_of(e)));
@@ -1627,6 +1782,39 @@ fn op_capr<T: Elem>(c: &mut Ctx, client: &str, kind: &str, same: bool, resp_fmt:
     (format!("{} {}", c.idx, s), r.is_ok())
 }
 
+/// The peer answers with an error code — over a body that is a perfectly decodable array of the element
+/// type: the call must come back as an error, not with those elements.
+fn op_capre(c: &mut Ctx, client: &str, kind: &str, ec: u32) -> (String, bool) {
+    let net = c.net.expect("net started");
+    let xs = vec![1.5f64, -2.5];
+    let rx = net.captured.lock().unwrap();
+    while rx.try_recv().is_ok() {}
+    *NEXT_RESPONSE.lock().unwrap() = Some((1, indep_body("regular", 0, 3, 8, 2, &bytes_of(&xs), 0)));
+    NEXT_EC.store(ec, std::sync::atomic::Ordering::Relaxed);
+    let (cl, kd) = (client.to_string(), kind.to_string());
+    let r: Result<Vec<f64>, repe::RepeError> = guarded_call(move || match (cl.as_str(), kd.as_str()) {
+        ("sync", "bulk") => net.cap_sync.call_typed_slice_with_timeout("/e", &xs, CALL_BOUND),
+        ("sync", _) => net.cap_sync.call_typed_slice_aligned_with_timeout("/e", &xs, CALL_BOUND),
+        ("syncp", "bulk") => net.cap_sync.call_typed_slice("/e", &xs),
+        ("syncp", _) => net.cap_sync.call_typed_slice_aligned("/e", &xs),
+        ("async", "bulk") => net.rt.block_on(net.cap_async.call_typed_slice_with_timeout("/e", &xs, CALL_BOUND)),
+        ("async", _) => net.rt.block_on(net.cap_async.call_typed_slice_aligned_with_timeout("/e", &xs, CALL_BOUND)),
+        (_, "bulk") => net.rt.block_on(async { tokio::time::timeout(WATCHDOG, net.cap_async.call_typed_slice("/e", &xs)).await.unwrap_or_else(|_| Err(never_returned())) }),
+        _ => net.rt.block_on(async { tokio::time::timeout(WATCHDOG, net.cap_async.call_typed_slice_aligned("/e", &xs)).await.unwrap_or_else(|_| Err(never_returned())) }),
+    })
+    .unwrap_or_else(|| Err(never_returned()));
+    let _ = rx.recv_timeout(std::time::Duration::from_secs(20));
+    drop(rx);
+    *NEXT_RESPONSE.lock().unwrap() = None;
+    NEXT_EC.store(0, std::sync::atomic::Ordering::Relaxed);
+    match &r {
+        Ok(v) => c.fail(&format!("numeric.capre.{}.{}.error_response_decoded", client, kind), format!("an answer with error code {} came back as {} elements", ec, v.len())),
+        Err(e) if e.to_string().contains("WATCHDOG") => c.fail(&format!("numeric.capre.{}.{}.call_never_returned", client, kind), format!("an answer with error code {} never reached the caller", ec)),
+        Err(_) => {}
+    }
+    (format!("{} {}", c.idx, if r.is_ok() { "ok" } else { "err" }), false)
+}
+
 /// The peer does not answer: the call must fail (it times out) — and the client stays usable, which the
 /// `cap` ops that follow on the same client check.
 fn op_capt(c: &mut Ctx, client: &str) -> (String, bool) {
@@ -1635,10 +1823,14 @@ fn op_capt(c: &mut Ctx, client: &str) -> (String, bool) {
     let xs = [1.5f64, 2.5];
     let rx = net.captured.lock().unwrap();
     while rx.try_recv().is_ok() {}
-    let r: Result<Vec<f64>, repe::RepeError> = match client {
-        "sync" => net.cap_sync.call_typed_slice_aligned_with_timeout("/!noanswer", &xs, t),
-        _ => net.rt.block_on(net.cap_async.call_typed_slice_aligned_with_timeout("/!noanswer", &xs, t)),
-    };
+    let sync = client == "sync";
+    let r: Result<Vec<f64>, repe::RepeError> = guarded_call(move || {
+        if sync { net.cap_sync.call_typed_slice_aligned_with_timeout("/!noanswer", &xs, t) } else { net.rt.block_on(net.cap_async.call_typed_slice_aligned_with_timeout("/!noanswer", &xs, t)) }
+    })
+    .unwrap_or_else(|| Err(never_returned()));
+    if matches!(&r, Err(e) if e.to_string().contains("WATCHDOG")) {
+        c.fail(&format!("numeric.capt.{}.call_never_returned", client), "a call with a 120 ms timeout against a silent peer did not return within the watchdog".into());
+    }
     let _ = rx.recv_timeout(std::time::Duration::from_secs(20));
     drop(rx);
     if r.is_ok() {
@@ -1650,10 +1842,12 @@ fn op_capt(c: &mut Ctx, client: &str) -> (String, bool) {
 /// The request of a client helper, built by the buffered builder and written RAW to a real server in
 /// pieces (byte by byte, or cut at the given offsets, optionally with a stall); the answer is read raw and
 /// decoded by the independent layout reader.  What is served must not depend on how the bytes arrived.
+/// One raw exchange with a real server: the request in pieces, optionally stalled; returns the observation
+/// and the oracle failures (signature, detail).
 #[allow(clippy::too_many_arguments)]
-fn op_frag<T: Elem>(c: &mut Ctx, server: usize, cuts: &str, kind: &str, route: &str, cls: u8, code: u8, plen: usize, n: usize, payload: &[u8]) -> (String, bool) {
+fn frag_exchange<T: Elem>(addr: &str, cuts: &str, kind: &str, route: &str, cls: u8, code: u8, plen: usize, n: usize, payload: &[u8]) -> (String, Vec<(String, String)>, bool) {
     use std::io::{Read, Write};
-    let net = c.net.expect("net started");
+    let mut fails = Vec::new();
     let xs: Vec<T> = vec_of(payload);
     let path = net_path(route, cls, code, plen);
     let b = Message::builder().id(4242).query_str(&path).query_format(repe::constants::QueryFormat::JsonPointer);
@@ -1663,32 +1857,38 @@ fn op_frag<T: Elem>(c: &mut Ctx, server: usize, cuts: &str, kind: &str, route: &
         _ => b.body_beve(&xs).expect("serde encode").build(),
     }
     .to_vec();
-    let stall = cuts.ends_with('s');
-    let spec = cuts.trim_end_matches('s');
+    // suffix `s` = a 40 ms stall, `s<ms>` = a stall of that many milliseconds, at the middle cut
+    let (spec, stall_ms): (&str, u64) = match cuts.find('s') {
+        Some(i) => (&cuts[..i], cuts[i + 1..].parse().unwrap_or(40)),
+        None => (cuts, 0),
+    };
     let mut offs: Vec<usize> = if spec == "1" { (1..frame.len()).collect() } else { spec.split(',').filter_map(|x| x.parse().ok()).filter(|o| *o > 0 && *o < frame.len()).collect() };
     offs.sort();
     offs.dedup();
-    let mut stream = std::net::TcpStream::connect(&net.addr[srv_ix(server)]).expect("connect");
+    let mut stream = match std::net::TcpStream::connect(addr) {
+        Ok(s) => s,
+        Err(_) => return ("no-connection".into(), vec![("numeric.frag.connect".into(), "cannot connect to the server".into())], false),
+    };
     let _ = stream.set_nodelay(true);
-    let _ = stream.set_read_timeout(Some(std::time::Duration::from_secs(30)));
+    let _ = stream.set_read_timeout(Some(std::time::Duration::from_millis(stall_ms + 30_000)));
     let mut at = 0;
     for (i, o) in offs.iter().chain(std::iter::once(&frame.len())).enumerate() {
         if stream.write_all(&frame[at..*o]).is_err() || stream.flush().is_err() {
             break;
         }
         at = *o;
-        if stall && i == offs.len() / 2 {
-            std::thread::sleep(std::time::Duration::from_millis(40));
+        if stall_ms > 0 && i == offs.len() / 2 {
+            std::thread::sleep(std::time::Duration::from_millis(stall_ms));
         } else if offs.len() < 64 {
             std::thread::sleep(std::time::Duration::from_millis(1));
         }
     }
     let mut hdr = [0u8; 48];
     let tag = format!("numeric.frag.{}.{}", kind, route);
-    let expect_served = !(kind == "aligned" && route != "ref");
+    let expect_served = !(kind == "aligned" && route != "ref") && route != "missing";
     if stream.read_exact(&mut hdr).is_err() {
-        c.fail(&format!("{}.no_answer", tag), format!("no answer to a request written in {} pieces", offs.len() + 1));
-        return (format!("{} no-answer", c.idx), false);
+        fails.push((format!("{}.no_answer", tag), format!("no answer to a request written in {} pieces (stall {} ms)", offs.len() + 1, stall_ms)));
+        return ("no-answer".into(), fails, false);
     }
     let ql = u64::from_le_bytes(hdr[24..32].try_into().unwrap()) as usize;
     let bl = u64::from_le_bytes(hdr[32..40].try_into().unwrap()) as usize;
@@ -1698,7 +1898,7 @@ fn op_frag<T: Elem>(c: &mut Ctx, server: usize, cuts: &str, kind: &str, route: &
     let body = &rest[ql.min(rest.len())..];
     let s = if ec != 0 {
         if expect_served {
-            c.fail(&format!("{}.failed", tag), format!("request in {} pieces answered with error code {}", offs.len() + 1, ec));
+            fails.push((format!("{}.failed", tag), format!("request in {} pieces (stall {} ms) answered with error code {}", offs.len() + 1, stall_ms, ec)));
         }
         format!("err Server({})", ec)
     } else {
@@ -1706,17 +1906,63 @@ fn op_frag<T: Elem>(c: &mut Ctx, server: usize, cuts: &str, kind: &str, route: &
         match got {
             Some((k, p)) => {
                 if k != n || p != payload || !expect_served {
-                    c.fail(&format!("{}.elements_differ", tag), format!("request in {} pieces: {} elements came back, bits equal: {}", offs.len() + 1, k, p == payload));
+                    fails.push((format!("{}.elements_differ", tag), format!("request in {} pieces (stall {} ms): {} elements came back, bits equal: {}", offs.len() + 1, stall_ms, k, p == payload)));
                 }
                 format!("ok {}", show_elems(k, &p))
             }
             None => {
-                c.fail(&format!("{}.answer_malformed", tag), "the answer is not a typed array of the element type".into());
+                fails.push((format!("{}.answer_malformed", tag), "the answer is not a typed array of the element type".into()));
                 "ok ?".to_string()
             }
         }
     };
-    (format!("{} {}", c.idx, s), ec == 0)
+    (s, fails, ec == 0)
+}
+
+/// The request of a client helper, built by the buffered builder and written RAW to a real server in
+/// pieces (byte by byte, or cut at the given offsets, optionally with a stall); the answer is read raw and
+/// decoded by the independent layout reader.  What is served must not depend on how the bytes arrived.
+#[allow(clippy::too_many_arguments)]
+fn op_frag<T: Elem>(c: &mut Ctx, server: usize, cuts: &str, kind: &str, route: &str, cls: u8, code: u8, plen: usize, n: usize, payload: &[u8]) -> (String, bool) {
+    let net = c.net.expect("net started");
+    let (s, fails, ok) = frag_exchange::<T>(&net.addr[srv_ix(server)], cuts, kind, route, cls, code, plen, n, payload);
+    for (sig, d) in fails {
+        c.fail(&sig, d);
+    }
+    (format!("{} {}", c.idx, s), ok)
+}
+
+/// The same request on several connections at once, each stalled mid-frame for one of the given durations
+/// (longer than any plausible internal timer): what is served does not depend on when the bytes arrive.
+#[allow(clippy::too_many_arguments)]
+fn op_stall<T: Elem>(c: &mut Ctx, server: usize, ms: &str, kind: &str, route: &str, cls: u8, code: u8, plen: usize, n: usize, payload: &[u8]) -> (String, bool) {
+    let net = c.net.expect("net started");
+    let addr = net.addr[srv_ix(server)].clone();
+    let durations: Vec<String> = ms.split(',').map(|x| x.to_string()).collect();
+    let frame_len = 48 + plen + n * T::W;
+    let results: Vec<(String, Vec<(String, String)>, bool)> = std::thread::scope(|sc| {
+        let hs: Vec<_> = durations
+            .iter()
+            .enumerate()
+            .map(|(i, d)| {
+                let addr = addr.clone();
+                // the stall falls inside the header, inside the query, or inside the body
+                let cuts = match i % 3 { 0 => format!("20,47s{}", d), 1 => format!("48,{}s{}", 48 + plen / 2 + 1, d), _ => format!("48,{},{}s{}", 48 + plen, (frame_len - 2).max(49 + plen), d) };
+                sc.spawn(move || frag_exchange::<T>(&addr, &cuts, kind, route, cls, code, plen, n, payload))
+            })
+            .collect();
+        hs.into_iter().map(|h| h.join().unwrap_or_else(|_| ("PANIC".into(), vec![("numeric.stall.panic".into(), "harness thread panicked".into())], false))).collect()
+    });
+    let mut obs = Vec::new();
+    let mut any = false;
+    for (s, fails, ok) in results {
+        for (sig, d) in fails {
+            c.fail(&sig.replace("numeric.frag.", "numeric.stall."), d);
+        }
+        any |= ok;
+        obs.push(s);
+    }
+    (format!("{} {}", c.idx, obs.join(" | ")), any)
 }
 
 fn cap_path(plen: usize) -> String {
@@ -1733,10 +1979,15 @@ fn op_cap<T: Elem>(c: &mut Ctx, client: &str, kind: &str, cls: u8, code: u8, pat
     let net = c.net.expect("net started");
     let xs: Vec<T> = vec_of(payload);
     let plen = path.len();
-    let t = std::time::Duration::from_secs(30);
+    let t = CALL_BOUND;
     let rx = net.captured.lock().unwrap();
     while rx.try_recv().is_ok() {}
-    let r: Result<Vec<T>, repe::RepeError> = match (client, kind) {
+    let r: Result<Vec<T>, repe::RepeError> = {
+        let (client, kind, path, xs) = (client.to_string(), kind.to_string(), path.to_string(), xs.clone());
+        // every call into the clients runs under the harness watchdog
+        guarded_call(move || {
+            let (client, kind, path, xs) = (client.as_str(), kind.as_str(), path.as_str(), &xs);
+            let r: Result<Vec<T>, repe::RepeError> = match (client, kind) {
         ("sync", "bulk") => net.cap_sync.call_typed_slice_with_timeout(&path, &xs, t),
         ("sync", "aligned") => net.cap_sync.call_typed_slice_aligned_with_timeout(&path, &xs, t),
         ("sync", "serde") => net.cap_sync.call_typed_beve_with_timeout(&path, &xs, t),
@@ -1751,6 +2002,10 @@ fn op_cap<T: Elem>(c: &mut Ctx, client: &str, kind: &str, cls: u8, code: u8, pat
         ("asyncp", "aligned") => net.rt.block_on(net.cap_async.call_typed_slice_aligned(&path, &xs)),
         ("asyncp", "serde") => net.rt.block_on(net.cap_async.call_typed_beve(&path, &xs)),
         _ => panic!("unknown client kind"),
+            };
+            r
+        })
+        .unwrap_or_else(|| Err(never_returned()))
     };
     let frame = match rx.recv_timeout(std::time::Duration::from_secs(20)) {
         Ok(f) => f,
@@ -1765,6 +2020,7 @@ fn op_cap<T: Elem>(c: &mut Ctx, client: &str, kind: &str, cls: u8, code: u8, pat
         Ok(v) if kind == "aligned" && v.is_empty() => {}
         Ok(v) if kind != "aligned" && v.len() == n && bytes_of(v) == payload => {}
         Ok(_) => c.fail(&format!("numeric.cap.{}.echo_differs", tag), "the echoed response did not decode to the elements".into()),
+        Err(e) if e.to_string().contains("WATCHDOG") => c.fail(&format!("numeric.cap.{}.call_never_returned", tag), format!("the call did not return within {} s although the peer answered", WATCHDOG.as_secs())),
         Err(e) => c.fail(&format!("numeric.cap.{}.call_failed", tag), format!("call failed: {}", cls_of(e))),
     }
     if frame.len() < 48 {
@@ -1843,11 +2099,11 @@ fn op_cap<T: Elem>(c: &mut Ctx, client: &str, kind: &str, cls: u8, code: u8, pat
 }
 
 // ------------------------------------------------------------------------------------------
-fn exec(out: &mut Out, line: &str, net: Option<&Net>) {
+fn exec(out: &mut Out, line: &str, net: Option<&'static Net>) {
     let w = words(line);
     let idx = w.get(1).copied().unwrap_or("?");
     // panics are caught per op; only the socket ops (which can hang the process) leave a marker file
-    if matches!(w[0], "net" | "cap" | "capq" | "capr" | "caprf" | "capt" | "frag") {
+    if matches!(w[0], "net" | "cap" | "capq" | "capr" | "caprf" | "capre" | "capt" | "frag" | "stall") {
         out.begin(line);
     }
     let mut c = Ctx { out: &mut *out, line, idx, net };
@@ -1963,6 +2219,12 @@ fn exec(out: &mut Out, line: &str, net: Option<&Net>) {
             dispatch!(cls, code, op_capr(&mut c, w[2], w[3], true, u(w[6]) as u16, resp, u(w[7]), &p2))
         }
         "capt" => op_capt(&mut c, w[2]),
+        "stall" => {
+            let (cls, code) = ty(w[6], w[7]);
+            let p = unhex(w[10]).unwrap();
+            dispatch!(cls, code, op_stall(&mut c, u(w[2]), w[3], w[4], w[5], cls, code, u(w[8]), u(w[9]), &p))
+        }
+        "capre" => op_capre(&mut c, w[2], w[3], u(w[4]) as u32),
         "frag" => {
             let (cls, code) = ty(w[6], w[7]);
             let p = unhex(w[10]).unwrap();
@@ -2743,6 +3005,63 @@ fn generate(seed: u64, thorough: bool) -> Vec<String> {
         }
     }
 
+    // ---- 6h. stalls longer than plausible internal timers, mid-frame, three connections at once ------------
+    let stalls = if thorough { vec!["300,600,1100", "2500,5500,11000"] } else { vec!["300,600,1100"] };
+    for ms in stalls {
+        for server in [0usize, 1, 3] {
+            let (cls, code, w) = *g.r.pick(&TYPES);
+            let (kind, route) = *g.r.pick(&[("aligned", "ref"), ("bulk", "slice"), ("serde", "typed")]);
+            let n = g.r.range(1, 40) as usize;
+            let p = gen_payload(&mut g.r, cls, code, w, n, 1);
+            push!(g, "stall", "{} {} {} {} {} {} {} {} {}", server, ms, kind, route, cls, code, *g.r.pick(&PLENS[1..]), n, hex(&p));
+        }
+    }
+    // answers that stall mid-frame (the clients' timeout is 15 s)
+    for (client, ms) in [("sync", 300), ("async", 600), ("syncp", 1100), ("asyncp", 300)] {
+        if !thorough && ms > 600 && client == "syncp" && g.r.chance(1, 2) {
+            continue;
+        }
+        let p = gen_payload(&mut g.r, 0, 3, 8, 5, 1);
+        push!(g, "capq", "{} bulk 0 3 {} 5 {}", client, hex(format!("/!stall{}", ms).as_bytes()), hex(&p));
+    }
+    // ---- 6i. error answers (every error code) over a decodable body; unknown path ---------------------------
+    for ec in [1u32, 2, 3, 4, 5, 6, 7, 8, 9, 4096, 4097, 65535, u32::MAX] {
+        for client in ["sync", "syncp", "async", "asyncp"] {
+            for kind in ["bulk", "aligned"] {
+                push!(g, "capre", "{} {} {}", client, kind, ec);
+            }
+        }
+    }
+    // every entry point: an empty and a non-empty answer of the right element type to a non-empty request
+    for client in ["sync", "syncp", "async", "asyncp"] {
+        for kind in ["bulk", "aligned"] {
+            let (cls, code, w) = *g.r.pick(&TYPES);
+            let p = gen_payload(&mut g.r, cls, code, w, 3, 1);
+            push!(g, "capr", "{} {} {} {} {} {} 0 -", client, kind, cls, code, cls, code);
+            push!(g, "capr", "{} {} {} {} {} {} 3 {}", client, kind, cls, code, cls, code, hex(&p));
+        }
+    }
+    for (i, kind) in ["bulk", "aligned", "serde"].into_iter().enumerate() {
+        let (cls, code, w) = TYPES[(i * 5) % 14];
+        let p = gen_payload(&mut g.r, cls, code, w, 3, 1);
+        push!(g, "net", "{} {} {} missing {} {} {} 3 {}", [0, 1, 3][i], ["sync", "async", "sync"][i], kind, cls, code, 8 + g.r.below(8), hex(&p));
+    }
+    // every error code a route closure can answer with, then an ordinary request on the same handler
+    {
+        let (cls, code, w) = *g.r.pick(&TYPES);
+        let p = gen_payload(&mut g.r, cls, code, w, 2, 1);
+        let body = real_typed_body(cls, code, &p);
+        let codes = [1u32, 2, 3, 4, 5, 6, 7, 8, 9, 4096];
+        for kind in ["ref", "slice"] {
+            let mut line = format!("{} 0 {} {} {} {}", kind, cls, code, hex(b"/h"), codes.len() + 1);
+            for ec in codes {
+                line.push_str(&format!(" err{} 1 0 {}", ec, hex(&body)));
+            }
+            line.push_str(&format!(" same 1 0 {}", hex(&body)));
+            g.push("hseq", line);
+        }
+    }
+
     // ---- 7. the frames the client helpers really write (capture peer) ------------------------------------
     // aligned calls: every element type x every path length 0..16 (all residues mod 8 and 16) x both
     // clients; longer paths and the bulk / serde helpers sampled
@@ -2807,7 +3126,16 @@ fn main() {
     let args = Args::parse();
     quiet_panics();
     let mut out = Out::new(&args.out);
-    out.rule = "element types bf16,f16,f32,f64,i8..i64,u8..u64 as raw little-endian blocks (NaN payloads quiet/signalling, ±inf, ±0, subnormals, min/max, random bits); vectors of every length 0..70 (thorough: 0..4096) plus 127..4096 boundaries, 2^14±1 and (thorough) one 2^20; complex pairs; three-way comparison bulk body / serde body / model, both decoders on both bodies incl. the empty vector; aligned form behind every query length 0..64 for every type and SIZE width, the frame copied to every base misalignment 0..7 of a Vec<u64> and served by the with_typed_slice_ref handler (pointer-range test: borrowed iff payload address aligned); regular / generic / aligned-for-another-offset / corrupted bodies and every first byte through both bulk routes (view and owned); every ordered pair of distinct element types in regular, aligned and complex form; wrong body formats; streaming writers (typed, complex and write_message_streaming itself; Vec sink and write-only / gathering sinks taking 1..1000 bytes per call, limits around the header end and the query end, every query length 0..64) vs buffered builders; real Server and AsyncServer with bulk, aligned and serde clients (blocking and async); two body setters in a row on one builder for every ordered pair of setters (bytes with spare capacity, utf8, json, beve, typed, complex, aligned; query before / after): the last setter wins; 3..5 requests through one route handler instance (bare / behind a middleware; closure echoing, answering another element type, returning Err, panicking with String / &str / non-string payloads; bodies > 64 KiB; arbitrary query bytes), each step judged from the raw bytes by an independent layout reader; aligned builder behind non-UTF-8 and long (≤ 100 k) queries; client calls answered with arrays of another element type, calls that time out followed by further calls on the same client, non-ASCII and long paths; payload sizes just below / at / above 8 KiB, 64 KiB, 128 KiB, 1 MiB on every entry point (typed and complex, streaming writers included); runs of 1..65 (thorough 1000) identical bad events through one handler followed by an ordinary request, runs of timed-out / wrongly answered calls on one client; requests written raw to the real servers byte by byte / at cut points around 48 and the query end with stalls, answers arriving in pieces; sinks reporting Interrupted; 30 non-Beve format codes incl. every 16-bit look-alike of 1; a third server with read/write timeouts and nodelay, a starved runtime on odd seeds; the raw request frame every client helper writes, captured by a stand-in peer for every element type and path length 0..16 (+ longer), compared with the MessageBuilder frame and served by the borrowing route at base misalignments 0..7. Distinct by op line; non-trivial = the decoder / route / call accepted and returned elements (encoders: non-empty vector)".into();
+    out.rule = "element types bf16,f16,f32,f64,i8..i64,u8..u64 as raw little-endian blocks (NaN payloads quiet/signalling, ±inf, ±0, subnormals, min/max, random bits); vectors of every length 0..70 (thorough: 0..4096) plus 127..4096 boundaries, 2^14±1 and (thorough) one 2^20; complex pairs; three-way comparison bulk body / serde body / model, both decoders on both bodies incl. the empty vector; aligned form behind every query length 0..64 for every type and SIZE width, the frame copied to every base misalignment 0..7 of a Vec<u64> and served by the with_typed_slice_ref handler (pointer-range test: borrowed iff payload address aligned); regular / generic / aligned-for-another-offset / corrupted bodies and every first byte through both bulk routes (view and owned); every ordered pair of distinct element types in regular, aligned and complex form; wrong body formats; streaming writers (typed, complex and write_message_streaming itself; Vec sink and write-only / gathering sinks taking 1..1000 bytes per call, limits around the header end and the query end, every query length 0..64) vs buffered builders; real Server and AsyncServer with bulk, aligned and serde clients (blocking and async); two body setters in a row on one builder for every ordered pair of setters (bytes with spare capacity, utf8, json, beve, typed, complex, aligned; query before / after): the last setter wins; 3..5 requests through one route handler instance (bare / behind a middleware; closure echoing, answering another element type, returning Err, panicking with String / &str / non-string payloads; bodies > 64 KiB; arbitrary query bytes), each step judged from the raw bytes by an independent layout reader; aligned builder behind non-UTF-8 and long (≤ 100 k) queries; client calls answered with arrays of another element type, calls that time out followed by further calls on the same client, non-ASCII and long paths; payload sizes just below / at / above 8 KiB, 64 KiB, 128 KiB, 1 MiB on every entry point (typed and complex, streaming writers included); runs of 1..65 (thorough 1000) identical bad events through one handler followed by an ordinary request, runs of timed-out / wrongly answered calls on one client; requests written raw to the real servers byte by byte / at cut points around 48 and the query end with stalls, answers arriving in pieces; sinks reporting Interrupted; 30 non-Beve format codes incl. every 16-bit look-alike of 1; a third server with read/write timeouts and nodelay, a starved runtime on odd seeds; three connections at once stalled mid-frame for 300 / 600 / 1100 ms (thorough 2.5 / 5.5 / 11 s), answers stalled mid-frame; answers carrying every error code over a decodable body; every io::ErrorKind from a failing sink; every error code from a route closure; unknown paths; every call into the clients under a 20 s watchdog; the raw request frame every client helper writes, captured by a stand-in peer for every element type and path length 0..16 (+ longer), compared with the MessageBuilder frame and served by the borrowing route at base misalignments 0..7. Distinct by op line; non-trivial = the decoder / route / call accepted and returned elements (encoders: non-empty vector)".into();
+    if std::env::args().any(|a| a == "--check-entry-points") {
+        let missing = entry_point_audit(&mut out);
+        println!("entry points of the anchored files not driven by the numeric family: {:?}", missing);
+        std::process::exit(if missing.is_empty() { 0 } else { 1 });
+    }
+    let missing = entry_point_audit(&mut out);
+    if !missing.is_empty() {
+        eprintln!("numeric: public entry points NOT DRIVEN (add to DRIVEN / NOT_DRIVEN_BECAUSE): {:?}", missing);
+    }
     let ops = match args.replay_ops() {
         Some(o) => o,
         // `--release-shape` (the optimised-build run of the thorough tier): the quick-sized mix, other seed
@@ -2815,13 +3143,17 @@ fn main() {
         None => generate(args.seed, args.thorough()),
     };
     SEED.store(args.seed, std::sync::atomic::Ordering::Relaxed);
-    let need_net = ops.iter().any(|l| l.starts_with("net ") || l.starts_with("cap") || l.starts_with("frag "));
-    let net = if need_net { Some(start_net()) } else { None };
+    let need_net = ops.iter().any(|l| l.starts_with("net ") || l.starts_with("cap") || l.starts_with("frag ") || l.starts_with("stall "));
+    let net: Option<&'static Net> = if need_net { Some(Box::leak(Box::new(start_net()))) } else { None };
     for line in &ops {
         if line.trim().is_empty() {
             continue;
         }
-        exec(&mut out, line, net.as_ref());
+        exec(&mut out, line, net);
+        if EXPIRIES.load(std::sync::atomic::Ordering::Relaxed) >= 3 && args.replay.is_none() {
+            out.count("stopped_after_3_calls_that_never_returned");
+            break;
+        }
         if out.oracle_failures >= 12 && args.replay.is_none() {
             // a broken tree: the first dozen failing inputs are enough, do not run the rest
             out.count("stopped_after_12_oracle_failures");
